@@ -553,7 +553,9 @@ fn op_rel_edit(req: &Value) -> Value {
                 "entry_replace" => { let mut e = root.get_entry(i).unwrap(); e.replace(j, mk_relation(&op["operand"])); }
                 "entry_remove_relation" => { let e = root.get_entry(i).unwrap(); e.remove_relation(j); }
                 "entry_remove" => { let mut e = root.get_entry(i).unwrap(); e.remove(); }
-                "set_version" => { let mut r = root.get_entry(i).unwrap().get_relation(j).unwrap(); r.set_version(Some((VersionConstraint::GreaterThanEqual, js(&op["value"]).parse().unwrap()))); }
+                "set_version" => { let mut r = root.get_entry(i).unwrap().get_relation(j).unwrap();
+                    let vc = match op["vop"].as_str().unwrap_or(">=") { "<=" => VersionConstraint::LessThanEqual, "=" => VersionConstraint::Equal, ">>" => VersionConstraint::GreaterThan, "<<" => VersionConstraint::LessThan, _ => VersionConstraint::GreaterThanEqual };
+                    r.set_version(Some((vc, js(&op["value"]).parse().unwrap()))); }
                 "unset_version" => { let mut r = root.get_entry(i).unwrap().get_relation(j).unwrap(); r.set_version(None); }
                 "drop_constraint" => { let mut r = root.get_entry(i).unwrap().get_relation(j).unwrap(); r.drop_constraint(); }
                 "set_archqual" => { let mut r = root.get_entry(i).unwrap().get_relation(j).unwrap(); r.set_archqual(&js(&op["value"])); }
